@@ -48,6 +48,9 @@ func WatchMutexStall(marker string, f func()) (stall string) {
 		}
 		ids, desc := mutexStallSnapshot(marker)
 		if ids != "" && ids == prev {
+			for _, id := range strings.Split(ids, ",") {
+				abandoned[id] = true
+			}
 			return desc
 		}
 		prev = ids
@@ -57,6 +60,9 @@ func WatchMutexStall(marker string, f func()) (stall string) {
 		tm.Reset(poll)
 	}
 }
+
+// goroutines abandoned by earlier stall reports of this process: they stay parked for ever and say nothing about a later run
+var abandoned = map[string]bool{}
 
 var goroutineHeader = regexp.MustCompile(`^goroutine (\d+) \[([^\]]*)\]:`)
 
@@ -79,6 +85,9 @@ func mutexStallSnapshot(marker string) (ids, desc string) {
 		m := goroutineHeader.FindStringSubmatch(g)
 		if m == nil {
 			return "", ""
+		}
+		if abandoned[m[1]] {
+			continue
 		}
 		if !strings.HasPrefix(m[2], "sync.Mutex.Lock") {
 			return "", "" // someone inside the marked code can still run
